@@ -8,12 +8,13 @@ TRUSTED = [
     "Lean 4.33.0 kernel; axioms propext, Classical.choice, Quot.sound only (checked per theorem by #print axioms on every run)",
     "hand-written mechanism model SimVerif/HttpProxy.lean of sim::http_proxy (one pure function per callback over checked memory; forward_request's std::string arithmetic as `rewrite`), reusing the parser model SimVerif/Http.lean (C15)",
     "correspondence: simdrv runs the real http_proxy (ASan+UBSan, storage zero-filled) between scripted clients and origins; `simcheck kernel` plugs the model into the world model (Drv/ProxySrv.lean: the proxy's acceptor, two sockets and resolver are ordinary objects of the TCP/resolver models) and must predict every line of the trace: each chunk each side reads, every completion instant, every lookup, the handler counts of run()",
-    "whether a host string is an address literal (boost make_address) is a syntactic test in the driver; generators use canonical literals",
+    "whether a host string is an address literal (boost make_address = glibc inet_pton for either family) is decided in the driver by a transcription of glibc's inet_pton4/inet_pton6 grammar (isAddrLiteral, compared with the C library on 150000 random strings: no difference); scope ids ('%') and NUL bytes in host strings are not generated",
     "the theorems are about one proxy object driven by an abstract reliable byte stream (what C05 provides) and abstract resolver/connect outcomes; the world-level composition is validated by the correspondence, not proved",
 ]
 ASSUME = [
     "the origin named by a session's first request is the origin of the whole session (the proxy supports one server connection; requests pipelined to another host are sent to the first: documented TODO in the source, outside the statement)",
     "headers are compared as a map lower-case name -> trimmed value (the proxy re-emits them from std::map: lower-cased, sorted, duplicates merged); `C18_rewrite` states the emitted bytes literally",
+    "a request after the first whose target starts with http:// but names no valid host:port (empty host, bad port) is forwarded to the session's origin like a request for another host (same TODO): no close is demanded for it; as a FIRST request it must end in nothing-or-one-503 and a close. A port number above 65535 (also one congruent modulo 65536 to a listening port: F43, repaired in 99bb698) is a malformed request wherever it stands: close, nothing forwarded",
     "a listener on the default port 80 cannot exist in the simulation (ports below 1024 are refused by bind): default-port requests are checked through the address/port the proxy dials (503 vs. relay) and, literally, by the theorem",
     "x.destroy: the object has no destructor of its own; the members' destructors abort what is outstanding and every callback ignores operation_aborted, so destroying at quiescence is safe (a completion that was already posted with success when the object is destroyed would run on freed memory: the scenarios destroy only when the event queue is empty)",
 ]
@@ -29,7 +30,7 @@ def nontrivial(impl):
     return sum(1 for l in impl if l.startswith("H ") and " data=" in l and " data=-" not in l) >= 2
 
 CHECK = ScenarioCheck("C18", ["SimVerif.Props.C18"], "kernel", gen.generate, spec_c18, nontrivial,
-    "1-3 successive client sessions through one proxy: 1-3 requests each (IPv4 / bracketed IPv6 literals, names resolving to one or two addresses / to an error / to nothing / unknown, explicit and default ports, empty and dotted paths, 0-3 headers with mixed case and padding, with/without Host; malformed, relative, https, CONNECT, truncated), the client byte stream cut into 1-6 pieces sent 0-60 ms apart, path MTU 41-1475; origins that accept at once or late, answer 0-3 fixed byte strings at scripted delays, close early or never, or do not exist (refused); clients close at scripted times, on end-of-stream, or never; stop() at a scripted time, before run, or never; destroy after the run; non-trivial = payload seen by at least two reads; distinct = distinct implementation trace",
+    "deterministic families first: a fixed pipelined stream of 2-3 requests to a listening, answering origin (literal :8080 / name :65535 with a 5 ms lookup / bracketed IPv6 :1024 at MTU 100 over an IPv6 proxy) cut at every byte position, at every pair of positions within 4 bytes of a request boundary, and with the piece after the boundary sent 0 / 1.5 / 5 ms later, nobody closing (origin_complete, relay_complete and served apply to each); a well-formed request followed by each kind of request the proxy must refuse (same piece, once connected, after the answer, during the lookup); answers of 3000-300000 bytes (composed write or write_loop of a byte stream, client reads of 48-65536 bytes, near and far-away clients so that one relay read returns up to the whole 64 KiB buffer); 300 pipelined requests queued during a 50 ms lookup and an 84 kB pipeline that overflows the proxy's request queue; then random scenarios: 1-3 successive client sessions through one proxy: 1-3 requests each (IPv4 / bracketed IPv6 literals, names resolving to one or two addresses / to an error / to nothing / unknown, explicit ports 1024 / 8080 / 65534 / 65535 with the origins listening there, 9999 with nobody, and default ports, `http://` targets with an empty host or an empty / non-numeric / out-of-range port, empty and dotted paths, 0-3 headers with mixed case and padding, with/without Host; malformed, relative, https, CONNECT, truncated), the client byte stream cut into 1-6 pieces sent 0-60 ms apart, path MTU 41-1475; origins that accept at once or late, answer 0-3 fixed byte strings (1-3000 bytes) at scripted delays, close early or never, or do not exist (refused); clients close at scripted times, on end-of-stream, or never; stop() at a scripted time, before run, or never; destroy after the run; non-trivial = payload seen by at least two reads; distinct = distinct implementation trace",
     TRUSTED, ASSUME, known_trigger=known_trigger, spec_scn=True)
 
 def run(tier, seed, replay):
